@@ -148,6 +148,12 @@ def forms():
         "pool p_a\n  depth = 1\nrule s\n  command = c $pool\n  pool = p_$out\nbuild a: s x\n",
         "pool p_x\n  depth = 1\npool p_\n  depth = 3\nrule s\n  command = c $pool\n  pool = p_$in\nbuild a: s x\n",
         "rule s\n  command = c\n  dyndep = $in\nbuild a: s x\n",
+        # ... and unlike $in / $out in a command they are file names there, not shell words: no quoting
+        "rule s\n  command = c\n  dyndep = $in\nbuild a: s x$ y\n",
+        "rule s\n  command = c\n  dyndep = $out.dd\nbuild a@b: s x || a@b.dd\n",
+        "rule s\n  command = c\n  dyndep = $out.dd\nbuild a$ b: s x | a$ b.dd\n",
+        "rule s\n  command = c $out $in\n  depfile = $out.d\n  rspfile = $out.rsp\n  rspfile_content = $in\nbuild a$ b: s x$ y z=1\n",
+        "pool p_a$ b\n  depth = 1\nrule s\n  command = c\n  pool = p_$out\nbuild a$ b: s x\n",
         "deps = gcc\nrestat = 1\ngenerator = 1\npool = p\ndyndep = x\nbuild a: r x\n", "build a: r x\r\n  pool = p\r\n", "# c\n  # indented comment\nbuild a: r x\n  # c\n  pool = p\n",
     ]
     for i, t in enumerate(extra):
@@ -230,3 +236,26 @@ def mutation_bases():
         if idx < len(fm):
             b.append(fm[idx][1])
     return b
+
+
+def phonycycle_err():
+    """-w phonycycle=err: the legacy self-referencing phony is not tolerated -- the self reference stays in the graph (and the
+    build is refused as cyclic) wherever the statement is written: top-level file, included file, subninja'd file, nested."""
+    opt = {"phonycycle_err": True}
+    stmts = ["build a: phony a\n", "build a: phony a b\n", "build a: phony b a\n", "build a: phony b || a\n", "build a: phony || a\n",
+             "build a: phony b | a\n", "build a b: phony a\n", "build a: phony b\n"]
+    n = 0
+    for st in stmts:
+        for how in ("top", "include", "subninja", "include-include", "subninja-include"):
+            if how == "top":
+                files = {"build.ninja": "rule r\n  command = c\n" + st + "build z: r a\n"}
+            elif how in ("include", "subninja"):
+                files = {"build.ninja": "rule r\n  command = c\n%s sub.ninja\nbuild z: r a\n" % how, "sub.ninja": st}
+            else:
+                outer = how.split("-")[0]
+                files = {"build.ninja": "rule r\n  command = c\n%s mid.ninja\nbuild z: r a\n" % outer, "mid.ninja": "include sub.ninja\n",
+                         "sub.ninja": st}
+            yield ("forms#pce%d" % n, files, opt)
+            # the same files with the default option: the self reference is dropped
+            yield ("forms#pcw%d" % n, files, {})
+            n += 1
